@@ -330,7 +330,8 @@ def register_vector_algebra(reg):
     def post_norm(I, env, res, check):
         G.use(I.eng, "hypot", "hypot.square")
         a = co(env.vars["self"])
-        check("euclidean_length", z3.And(rz(res) >= 0, sq(rz(res)) == norm2(a)))
+        check("length_is_nonnegative", rz(res) >= 0)
+        check("euclidean_length_squared", sq(rz(res)) == norm2(a))
 
     def replay_norm(inputs, clause):
         a = _vec(inputs, "self")
@@ -345,11 +346,11 @@ def register_vector_algebra(reg):
         a, r = co(env.vars["self"]), co(res)
         zero = z3.And(*[x == 0 for x in a])
         check("zero_stays_zero", z3.Implies(zero, eq3(r, (0, 0, 0))))
-        L = z3.Real("L!norm")
-        hyp = z3.And(L >= 0, sq(L) == norm2(a), z3.Not(zero))
-        check("same_direction", z3.Implies(hyp, eq3([x * L for x in r], a)))
+        L = G.hyp_term(I.eng, a)  # |a|: the non-negative root of the sum of squares (A1.hypot_*)
+        hyp = z3.Not(zero)
         for i, n in enumerate("xyz"):
-            check(f"unit_length_lemma_{n}", z3.Implies(hyp, sq(r[i]) * norm2(a) == sq(a[i])))
+            check(f"same_direction_{n}", z3.Implies(hyp, r[i] * L == a[i]))
+        # (result * |a| == a with |a| != 0 determines the result uniquely as a / |a|; unit length is its consequence)
 
     def replay_normalized(inputs, clause):
         a = _vec(inputs, "self")
@@ -364,7 +365,8 @@ def register_vector_algebra(reg):
     def post_dist(I, env, res, check):
         G.use(I.eng, "hypot", "hypot.square")
         a, b = co(env.vars["self"]), co(env.vars["other"])
-        check("euclidean_distance", z3.And(rz(res) >= 0, sq(rz(res)) == norm2([y - x for x, y in zip(a, b)])))
+        check("distance_is_nonnegative", rz(res) >= 0)
+        check("euclidean_distance_squared", sq(rz(res)) == norm2([y - x for x, y in zip(a, b)]))
 
     def replay_dist(inputs, clause):
         a, b = _vec(inputs, "self"), _vec(inputs, "other")
@@ -568,7 +570,8 @@ def register_vector_algebra(reg):
         G.use(I.eng, "atan2")
         a, r = co(env.vars["self"]), co(res)
         h = G.hyp_term(I.eng, [a[0], a[1]])
-        check("rho_is_the_length", z3.And(r[0] >= 0, sq(r[0]) == norm2(a)))
+        check("rho_is_nonnegative", r[0] >= 0)
+        check("rho_squared_is_the_squared_length", sq(r[0]) == norm2(a))
         check("theta_is_angle_from_plus_y_ccw", r[1] == ATAN2(a[1], a[0]) - HALF_PI)
         check("theta_of_plus_y_is_zero", z3.Implies(z3.And(a[0] == 0, a[1] > 0), r[1] == 0))
         check("theta_of_minus_x_is_quarter_turn", z3.Implies(z3.And(a[0] < 0, a[1] == 0), r[1] == HALF_PI))
@@ -1711,7 +1714,8 @@ def register_frames(reg):
     def post_distance(I, env, res, chk):
         G.use(I.eng, "hypot", "hypot.square")
         a, b = co(env.vars["_a"]), co(env.vars["_b"])
-        chk("euclidean_distance", z3.And(rz(res) >= 0, sq(rz(res)) == norm2([x - y for x, y in zip(a, b)])))
+        chk("distance_is_nonnegative", rz(res) >= 0)
+        chk("euclidean_distance_squared", sq(rz(res)) == norm2([x - y for x, y in zip(a, b)]))
 
     def replay_two(fname, oracle, angle=False, ego_first=False):
         def replay(inputs, clause):
